@@ -642,3 +642,44 @@ pub fn key_full_universe_cases(prop: &'static str, coll: &'static str) -> BoxedS
         })
         .boxed()
 }
+
+/// C12 on the segment tree, phase-structured: a few (mostly multi-place) values, a clock jump after
+/// which most or all of them are expired, a few queries that are often abandoned after one or two
+/// items (so some expired copies are dropped and others are not), `clear` with a clock restart, new
+/// inserts, then whole-domain and point queries compared with the fresh twin.
+pub fn seg_expire_partial_clear_cases(prop: &'static str) -> BoxedStrategy<Case> {
+    let doms: Vec<(i64, i64, &'static str)> = vec![(0, 32, "i32"), (-16, 32, "i32"), (5, 17, "i32"), (0, 1000, "i64"), (-10240, 25601, "i32")];
+    let ins = vec![
+        spec(10, S_INS, &[0..=31, 0..=3, 0..=31, 0..=3, 1..=4]),
+        spec(2, S_PINS, &[0..=31, 0..=3, 1..=4]),
+        spec(1, S_ADV, &[0..=1]),
+    ];
+    // consumption argument 6*style + k: small k = abandoned early
+    let looks = vec![
+        spec(6, S_QUERY, &[0..=31, 0..=3, 0..=31, 0..=3, 0..=35]),
+        spec(3, S_QUERY, &[0..=3, 0..=0, 28..=31, 1..=1, 0..=35]),
+        spec(2, S_PQUERY, &[0..=31, 0..=3]),
+        spec(1, S_QUERYALL, &[]),
+        spec(2, S_ADV, &[0..=3]),
+    ];
+    let after = vec![
+        spec(4, S_QUERYALL, &[]),
+        spec(6, S_PQUERY, &[0..=31, 0..=3]),
+        spec(4, S_QUERY, &[0..=31, 0..=3, 0..=31, 0..=3, 0..=0]),
+        spec(3, S_INS, &[0..=31, 0..=3, 0..=31, 0..=3, 1..=4]),
+        spec(2, S_ADV, &[0..=2]),
+    ];
+    (pick(&doms), ops_strategy(&ins, 1..=7), 1..=7i64, ops_strategy(&looks, 0..=6), 0..=2i64, ops_strategy(&ins, 1..=3), ops_strategy(&after, 3..=14))
+        .prop_map(move |((lo, dlen, rt), a, jump, b, c0, c, d)| {
+            let mut k = Case::new(prop, "seg");
+            k.set("lo", lo).set("len", dlen).set("rtype", rt);
+            k.ops = a;
+            k.ops.push(RawOp::new(S_ADV, &[jump]));
+            k.ops.extend(b);
+            k.ops.push(RawOp::new(S_CLEAR, &[c0]));
+            k.ops.extend(c);
+            k.ops.extend(d);
+            k
+        })
+        .boxed()
+}
